@@ -89,6 +89,41 @@ def evaluate(sid, checks, tier):
     return res
 
 
+def benign(sid, tier):
+    """A behaviour-preserving change (seeded/<id>/patch.diff, meta.json with "benign": true): the pinned suite must pass
+    and every check must stay silent (exit 0) on the changed tree."""
+    d = os.path.join(SEEDED, sid)
+    meta = json.load(open(os.path.join(d, 'meta.json')))
+    wt = tempfile.mkdtemp(prefix='verif_benign.', dir='/var/tmp')
+    os.rmdir(wt)
+    ev = wt + '.ev'
+    res = {'repo_head': sh('git -C /repo rev-parse --short HEAD').stdout.strip(), 'tier': tier, 'checks': {}}
+    try:
+        if sh('git -C /repo worktree add -q %s HEAD' % wt).returncode:
+            return
+        r = sh(['git', '-C', wt, 'apply', os.path.join(d, 'patch.diff')])
+        res['applies'] = r.returncode == 0
+        if r.returncode:
+            print(sid, 'PATCH DOES NOT APPLY', r.stdout)
+        else:
+            res['baseline'] = sh([os.path.join(VERIF, 'tools', 'baseline.sh'), wt]).stdout.strip().splitlines()[-1]
+            env = dict(os.environ, VERIF_REPO=wt, VERIF_EVIDENCE_DIR=ev, VERIF_REPLAY_DIR=ev + '/replay')
+            for c in ['C%02d' % i for i in range(1, 20)]:
+                r = sh([os.path.join(VERIF, 'check'), c, '--tier', tier], cwd=VERIF, env=env, timeout=7200)
+                sigs = re.findall(r'signature=(\S+)', r.stdout)
+                res['checks'][c] = {'exit': r.returncode, 'first_signatures': sigs[:3]}
+                print(sid, c, 'rc=%d' % r.returncode, sigs[:2])
+    finally:
+        sh('git -C /repo worktree remove --force %s' % wt)
+        shutil.rmtree(wt, ignore_errors=True)
+        shutil.rmtree(ev, ignore_errors=True)
+    res['all_silent'] = bool(res.get('applies')) and all(v['exit'] == 0 for v in res['checks'].values()) \
+        and 'missing=0' in res.get('baseline', '')
+    meta['verified'] = res
+    json.dump(meta, open(os.path.join(d, 'meta.json'), 'w'), indent=1, sort_keys=True)
+    print(sid, 'all_silent=%s' % res['all_silent'], res.get('baseline'))
+
+
 def table():
     print('| change | property | what it needs to manifest | confirmed | caught by (exit 1) | silent (exit 0) |')
     print('|---|---|---|---|---|---|')
@@ -97,6 +132,8 @@ def table():
         if not os.path.exists(p):
             continue
         m = json.load(open(p))
+        if m.get('benign'):
+            continue
         v = m.get('verified', {})
         caught = [c for c, r in sorted(v.get('checks', {}).items()) if r['exit'] == 1]
         silent = [c for c, r in sorted(v.get('checks', {}).items()) if r['exit'] == 0]
@@ -123,9 +160,13 @@ def main():
             else:
                 ids.append(a)
         if ids == ['all']:
-            ids = sorted(os.listdir(SEEDED))
+            ids = sorted(x for x in os.listdir(SEEDED) if not x.startswith('benign'))
         for sid in ids:
             evaluate(sid, checks, tier)
+    elif cmd == 'benign':
+        tier = 'quick'
+        for sid in sys.argv[2:]:
+            benign(sid, tier)
     elif cmd == 'table':
         table()
 
